@@ -18,8 +18,8 @@ for name in sorted(os.listdir(root)):
             agent = json.load(open(os.path.join(d, "agent_meta.json")))
         except Exception:
             agent = {}
-    m = re.match(r"(?:revert-)?(C\d\d)", name)
-    prop = m.group(1) if m else agent.get("property", "")
+    m = re.search(r"([CX]\d\d)", name)
+    prop = m.group(1) if m else (meta.get("property") or agent.get("property", ""))
     meta.setdefault("property", prop)
     meta.setdefault("origin", "reverted fix: commit (my own regression seed)" if name.startswith("revert-") else
                     "independent sub-agent given only the property text and a scratch worktree")
